@@ -21,19 +21,36 @@ from props import c06, c08
 common.repo_on_path()
 
 MAXSIZE = 1 << 20
-KNOWN_OBJECTS = ("target", "sess", "Pyro.Daemon")
+KNOWN_OBJECTS = ("target", "sess", "poison", "Pyro.Daemon")
 FIELDS = [("tag", 0, 4), ("ver", 4, 2), ("type", 6, 1), ("ser", 7, 1), ("flags", 8, 2), ("seq", 10, 2), ("dsz", 12, 4),
           ("asz", 16, 4), ("corr", 20, 16), ("rsv", 36, 2), ("magic", 38, 2)]
 GARBAGE_RAW = "pr"      # every srvkit.GARBAGE entry fails header validation: ProtocolError
 
 
 # ---- valid messages ------------------------------------------------------------------------------
-def handshake_msg(ser, seq, body=("handshake", True, True, "accept")):
-    return {"type": 1, "ser": ser, "seq": seq, "oneway": False, "body": body}
+def handshake_msg(ser, seq, body=("handshake", True, True, "accept"), ann=()):
+    return {"type": 1, "ser": ser, "seq": seq, "oneway": False, "body": body, "ann": list(ann)}
 
 
-def call_msg(ser, seq, spec, oneway=False):
-    return {"type": 4, "ser": ser, "seq": seq, "oneway": oneway, "body": ("call", ("method", spec))}
+def call_msg(ser, seq, spec, oneway=False, ann=()):
+    return {"type": 4, "ser": ser, "seq": seq, "oneway": oneway, "body": ("call", ("method", spec)), "ann": list(ann)}
+
+
+def poison_call(ser, seq, kind, token):
+    """(bytes, model item, expected reply) of a call whose method raises an exception that cannot be serialised, in one
+    of the ways that are NOT TypeError / ValueError / SerializeError (c05_rig.poison_value)"""
+    import uuid
+    from Pyro5 import protocol, serializers
+    from Pyro5.callcontext import current_context
+    payload = serializers.serializers_by_id[ser].dumpsCall("poison", "boom", (kind, token), {})
+    old = current_context.correlation_id
+    current_context.correlation_id = None
+    try:
+        data = bytes(protocol.SendingMessage(protocol.MSG_INVOKE, 0, seq, ser, payload).data)
+    finally:
+        current_context.correlation_id = old
+    item = ["M", "4", str(ser), str(seq), "0", "C", "M", str(token), "x", "g", "0", "0", "-", "-", "-", "0", "ot"]
+    return data, item, ["error", seq, ser]
 
 
 def base_of(m):
@@ -87,8 +104,29 @@ def all_mutants(base):
             else:
                 continue
             out.append(("length:" + which, bytes(b)))
+    out += chunk_mutants(base)
     for k in range(len(data)):
         out.append(("prefix", data[:k]))
+    return out
+
+
+def chunk_mutants(base):
+    """annotation chunk length fields at the 32-bit boundaries, the header staying valid and consistent with the bytes sent"""
+    data = base["data"]
+    asz = int.from_bytes(data[16:20], "big")
+    out = []
+    o = 0
+    while o + 8 <= asz:
+        cur = int.from_bytes(data[40 + o + 4:40 + o + 8], "big")
+        vals = {2 ** 32 - 8, 2 ** 32 - 16, 2 ** 32 - 24, 2 ** 32 - 1, 2 ** 32 - 7, 2 ** 31, 2 ** 31 - 1, 2 ** 31 - 8, 2 ** 31 + 8,
+                (2 ** 32 - asz) % 2 ** 32, (2 ** 32 - 8 - o) % 2 ** 32, (2 ** 32 - 16 - o) % 2 ** 32, 0, 1, asz, max(asz - 8, 0),
+                asz - 8 - o, cur + 1, max(cur - 1, 0), cur + 8, 2 ** 16, 2 ** 24}
+        vals.discard(cur)
+        for v in sorted(x % 2 ** 32 for x in vals):
+            b = bytearray(data)
+            b[40 + o + 4:40 + o + 8] = v.to_bytes(4, "big")
+            out.append(("chunklen", bytes(b)))
+        o += 8 + cur
     return out
 
 
@@ -109,8 +147,26 @@ def random_mutant(rng, base):
         return "payload", bytes(b)
     if x < 0.6:
         return "c06", c06.mutate(rng, data)
+    cm = chunk_mutants(base)
+    if cm and x < 0.75:
+        return rng.choice(cm)
     kind, b = rng.choice(all_mutants(base))
     return kind, b
+
+
+def invalid_prefix(rng):
+    """6..39 bytes whose first six already fail the header validation (not PYRO / wrong protocol version)"""
+    n = rng.randint(6, 39)
+    x = rng.random()
+    if x < 0.4:
+        b = bytearray(rng.randbytes(n))
+        if bytes(b[:4]) == b"PYRO":
+            b[0] = 0x51
+    elif x < 0.7:
+        b = bytearray(b"PYRO" + rng.choice([b"\x00\x00", b"\x01\xf5", b"\x01\xf7", b"\xff\xff", b"\x00\x2f"]) + rng.randbytes(n - 6))
+    else:
+        b = bytearray((b"GET / HTTP/1.1\r\nHost: localhost\r\n\r\n" + b"x" * 40)[:n])
+    return bytes(b)
 
 
 # ---- classification: bytes -> items of the server model ----------------------------------------------
@@ -252,11 +308,16 @@ class HistGen:
                     spec["ann"] = [r.randrange(100)]
                 m = call_msg(ser, seq, spec)
                 exp = ["result", seq, ser, spec["token"]]
-            elif x < 0.7:
+            elif x < 0.62:
                 self.g.token += 1
                 spec = {"token": self.g.token, "out": "raise", "exc": "generic", "ser": r.random() < 0.5}
                 m = call_msg(ser, seq, spec)
                 exp = ["error", seq, ser]
+            elif x < 0.7:
+                self.g.token += 1
+                data, item, exp = poison_call(ser, seq, r.choice(["slots", "getstate", "deep"]), self.g.token)
+                acts.append(self.send(conn, data, None, False, [item], exp))
+                continue
             elif x < 0.8:
                 m = {"type": 6, "ser": ser, "seq": seq, "oneway": False, "body": ("undecodable",)}
                 exp = ["ping", seq, ser]
@@ -300,16 +361,25 @@ class HistGen:
                 e = r.choice(["eof", "reset", "timeout"])
                 acts.append(self.send(conn, b"", e, e != "timeout" and r.random() < 0.3, [["X" if e != "timeout" else "T", "ot"]]))
             return acts
+        if x < 0.35:
+            # an invalid prefix from a peer that then stays connected and silent: must be refused without waiting for more
+            data = invalid_prefix(r)
+            items, checks = classify(data, "silent", fresh, [])
+            self.checks += checks
+            acts.append(self.send(conn, data, "silent", False, items))
+            acts[-1].append("silentprefix")
+            return acts
         # byte-level mutant of a valid message of this phase
         ser = r.choice([1, 2, 3, 4])
         seq = r.randint(0, 65535)
+        ann = r.choice([(), (), ("ABCD",), ("ABCD", "WXYZ"), ("HMAC", "ABCD", "Zz09")])
         if fresh:
             body = ("handshake", True, True, "accept") if r.random() < 0.8 else self.g.body("handshake")
-            base = base_of(handshake_msg(ser, seq, body))
+            base = base_of(handshake_msg(ser, seq, body, ann))
         else:
             ow = r.random() < 0.15
             spec = self.g.method(ow)
-            base = base_of(call_msg(ser, seq, spec, ow))
+            base = base_of(call_msg(ser, seq, spec, ow, ann))
         queue = (self.exhaustive or {}).get("fresh" if fresh else "active")
         if queue and r.random() < 0.6:
             _, kind, data, base = queue.pop()
@@ -375,14 +445,17 @@ def sweep(rng, thorough):
     """systematic part: every mutant of one handshake and one invoke message per serializer (quick: a sample)"""
     out = []
     for ser in (1, 2, 3, 4):
-        for phase, base in (("fresh", base_of(handshake_msg(ser, 513))),
-                            ("active", base_of(call_msg(ser, 514, {"token": 7000 + ser, "track": [3]})))):
+        ann = ("ABCD", "WXYZ") if ser % 2 else ("HMAC",)
+        for phase, base in (("fresh", base_of(handshake_msg(ser, 513, ann=ann))),
+                            ("active", base_of(call_msg(ser, 514, {"token": 7000 + ser, "track": [3]}, ann=ann)))):
             ms = all_mutants(base)
             if not thorough:
                 pref = [m for m in ms if m[0] == "prefix"]
-                other = [m for m in ms if m[0] != "prefix"]
+                chunk = [m for m in ms if m[0] == "chunklen"]
+                other = [m for m in ms if m[0] not in ("prefix", "chunklen")]
                 keep = set(list(range(0, 48)) + [len(pref) - 1, len(pref) - 2]) | set(rng.sample(range(len(pref)), min(6, len(pref))))
-                ms = rng.sample(other, min(len(other), 40)) + [p for i, p in enumerate(pref) if i in keep and ser == 3]
+                ms = rng.sample(other, min(len(other), 40)) + [p for i, p in enumerate(pref) if i in keep and ser == 3] \
+                    + (chunk if ser in (1, 4) else rng.sample(chunk, min(len(chunk), 8)))
             for kind, data in ms:
                 out.append((phase, kind, data, base))
     rng.shuffle(out)
